@@ -65,6 +65,8 @@ theorem cfgD_typecasts (hu : DelimU u) : CfgD u (cfgTypecasts u) where
   trailInert := trail_inert fun _ h => typecasts_inert h
   openProt := .inr fun _ _ _ hb => openerBad_mem (by simp [prevAbsorbers]) hb
   closeProt := fun _ _ _ hb => closerBad_mem (by simp [nextAbsorbers]) hb
+  il := fun h => nomatch h
+
 
 theorem cfgD_tzcasts (hu : DelimU u) : CfgD u (cfgTzcasts u) where
   al := postAl3_tzcasts u
@@ -74,6 +76,8 @@ theorem cfgD_tzcasts (hu : DelimU u) : CfgD u (cfgTzcasts u) where
   trailInert := trail_inert fun _ h => tzcasts_inert h
   openProt := .inr fun _ _ _ hb => openerBad_mem (by simp [prevAbsorbers]) hb
   closeProt := fun _ _ _ hb => closerBad_mem (by simp [nextAbsorbers]) hb
+  il := fun h => nomatch h
+
 
 theorem cfgD_typedLiteral0 (hu : DelimU u) : CfgD u (cfgTypedLiteral0 u) where
   al := postAl3_typedLiteral0 u
@@ -83,6 +87,8 @@ theorem cfgD_typedLiteral0 (hu : DelimU u) : CfgD u (cfgTypedLiteral0 u) where
   trailInert := trail_inert fun _ h => typedLiteral0_inert h
   openProt := .inl (fromT_typedLiteral0 u)
   closeProt := fun _ _ _ hb => closerBad_mem (by simp [nextAbsorbers]) hb
+  il := fun h => nomatch h
+
 
 theorem cfgD_typedLiteral1 (hu : DelimU u) : CfgD u (cfgTypedLiteral1 u) where
   al := postAl3_typedLiteral1 u
@@ -92,6 +98,8 @@ theorem cfgD_typedLiteral1 (hu : DelimU u) : CfgD u (cfgTypedLiteral1 u) where
   trailInert := trail_inert fun _ h => typedLiteral1_inert h
   openProt := .inl (fromT_typedLiteral1 u)
   closeProt := fun _ _ _ hb => closerBad_mem (by simp [nextAbsorbers]) hb
+  il := fun h => nomatch h
+
 
 theorem cfgD_period (hu : DelimU u) : CfgD u (cfgPeriod u) where
   al := postAl3_period u
@@ -116,6 +124,8 @@ theorem cfgD_period (hu : DelimU u) : CfgD u (cfgPeriod u) where
     unfold postPeriod at h
     simp only [hcn, delim_post_period hu hc, Bool.false_eq_true, ↓reduceIte] at h
     cases h; rfl
+  il := fun h => nomatch h
+
 
 theorem cfgD_arrays (hu : DelimU u) : CfgD u (cfgArrays u) where
   al := postAl3_arrays u
@@ -131,6 +141,8 @@ theorem cfgD_arrays (hu : DelimU u) : CfgD u (cfgArrays u) where
     intro cur p t n r h _
     change postPrevTok cur p t (some n) = .ok r at h
     cases h; rfl
+  il := fun h => nomatch h
+
 
 theorem cfgD_as (hu : DelimU u) : CfgD u (cfgAs u) where
   al := postAl3_as u
@@ -140,6 +152,8 @@ theorem cfgD_as (hu : DelimU u) : CfgD u (cfgAs u) where
   trailInert := trail_inert fun _ h => as_inert h
   openProt := .inr fun _ _ _ hb => openerBad_mem (by simp [prevAbsorbers]) hb
   closeProt := fun _ _ _ hb => closerBad_mem (by simp [nextAbsorbers]) hb
+  il := fun h => nomatch h
+
 
 theorem cfgD_comparison (hu : DelimU u) : CfgD u (cfgComparison u) where
   al := postAl3_comparison u
@@ -149,6 +163,28 @@ theorem cfgD_comparison (hu : DelimU u) : CfgD u (cfgComparison u) where
   trailInert := trail_inert fun _ h => comparison_inert h
   openProt := .inr fun _ _ _ hb => openerBad_mem (by simp [prevAbsorbers]) hb
   closeProt := fun _ _ _ hb => closerBad_mem (by simp [nextAbsorbers]) hb
+  il := fun h => nomatch h
+
+
+theorem il_post : ∀ cur p t n r, (cfgIdentifierList u).post cur p t n = .ok r → ∃ n', n = some n' ∧ r.2.2 = n' := by
+  intro cur p t n r h
+  change postPrevNext cur p t n = .ok r at h
+  unfold postPrevNext at h
+  cases n with
+  | none => cases h
+  | some n' => cases h; exact ⟨n', rfl, rfl⟩
+
+theorem il_next : ∀ x, (cfgIdentifierList u).validNext (some x) = true → isComma x = false := by
+  intro x hx
+  cases x with
+  | grp _ _ => rfl
+  | tok tt v =>
+    by_cases ht : tt = T.Punctuation
+    · subst ht
+      simp (config := { decide := true }) [cfgIdentifierList, validIdentifierList, imtOpt, imt, Node.isInstAny,
+        Node.isInst, Node.ttEqAny, Node.matchP, Node.match, Gen.group_identifier_list_ttypes,
+        Gen.group_identifier_list_m_role, T.Punctuation] at hx
+    · simp [isComma, ht]
 
 theorem cfgD_identifierList (hu : DelimU u) : CfgD u (cfgIdentifierList u) where
   al := postAl3_identifierList u
@@ -158,6 +194,8 @@ theorem cfgD_identifierList (hu : DelimU u) : CfgD u (cfgIdentifierList u) where
   trailInert := trail_inert fun _ h => identifierList_inert h
   openProt := .inr fun _ _ _ hb => openerBad_mem (by simp [prevAbsorbers]) hb
   closeProt := fun _ _ _ hb => closerBad_mem (by simp [nextAbsorbers]) hb
+
+  il := fun _ => ⟨il_post, il_next⟩
 
 /-- `group_operator`: `tlist[tidx]` is the matched token (head alignment for matching elements, `Respell/Operator.lean`) -/
 theorem cfgD_operator (hu : DelimU u) : CfgD u (cfgOperator u) where
@@ -183,6 +221,8 @@ theorem cfgD_operator (hu : DelimU u) : CfgD u (cfgOperator u) where
   trailInert := trail_inert fun _ h => operator_inert h
   openProt := .inr fun _ _ _ hb => openerBad_mem (by simp [prevAbsorbers]) hb
   closeProt := fun _ _ _ hb => closerBad_mem (by simp [nextAbsorbers]) hb
+  il := fun h => nomatch h
 
 end DC
 end Sql
+
